@@ -126,8 +126,9 @@ def run_arch_seq(seq) -> dict:
             listed = [(n, [x for x in mods.split(", ") if x]) for n, mods in STR_LAYER.findall(str(arch))]
             if listed != [(n, v or []) for n, v in model.layers.items()]:
                 viols.append({"sig": "C16/arch/str-listing", "key": {}, "detail": f"{seq}: str={str(arch)!r} want={model.layers}"})
-            if set(arch._modules_by_layer_name) != set(model.layers):
-                viols.append({"sig": "C16/arch/extra-layers", "key": {}, "detail": f"{seq}: {list(arch._modules_by_layer_name)}"})
+            internal = getattr(arch, "_modules_by_layer_name", None)  # not public API: only looked at if it is there
+            if isinstance(internal, dict) and set(internal) != set(model.layers):
+                viols.append({"sig": "C16/arch/extra-layers", "key": {}, "detail": f"{seq}: {list(internal)}"})
         except Exception as e:  # noqa: BLE001
             viols.append({"sig": "C16/arch/exposure-error", "key": {}, "detail": f"{seq}: {type(e).__name__}: {e}"})
     return {"violations": viols, "nontrivial": interesting, "stop": stop,
